@@ -121,8 +121,8 @@ def readFrameC (oc : Bool) (f : Deframer) : Nat â†’ Buf â†’ SRW â†’ List Call â†
           let (s', res, d', call) := s.read w
           let log' := log ++ [call]
           match res with
-          | .error 99 => (b2, s', log', .panic)       -- the scripted reader panicked
-          | .error k => (b2, s', log', .err k)
+          | .error k => if k = 99 then (b2, s', log', .panic)   -- the scripted reader panicked
+                        else (b2, s', log', .err k)
           | .ok n =>
             let b3 : Buf := { b2 with mem := writeAt b2.mem b2.wi d' }
             if n = 0 then
